@@ -43,6 +43,8 @@ BUILTIN = {"ABS_F": ("abs", 1), "FMOD_F": ("fmod", 2), "FMA_F": ("fma", 3), "POW
 
 def level(t):
     k = t[0]
+    if k == "PAREN":        # a redundant pair of parentheses around t[1] (C09); no node in the tree
+        return L_ATOM
     if k in ("ID", "INT", "DBL", "BOOL", "CALL", "BUILTIN"):
         return L_ATOM if k != "CALL" else L_POSTFIX
     if k in BINARY:
@@ -76,6 +78,8 @@ def render(t, full):
             return s
         return _par(s) if (full or need) else s
 
+    if k == "PAREN":
+        return _par(render(t[1], full))
     if k == "ID":
         return t[1]
     if k == "INT":
@@ -111,13 +115,15 @@ def render(t, full):
         return "%s ( %s )" % (BUILTIN[t[1]][0], " , ".join(sub(c, level(c) < L_ASSIGN) if not full else sub(c, True)
                                                              for c in t[2:]))
     if k == "QUANT":
-        return "%s ( %s : int[0,1] ) %s" % (QUANT[t[1]], t[2], sub(t[3], False))
+        return "%s ( %s : %s ) %s" % (QUANT[t[1]], t[2], t[4] if len(t) > 4 else "int[0,1]", sub(t[3], False))
     raise ValueError(k)
 
 
 def expected(t):
     """s-expression (harness format, symtypes off) the library must build"""
     k = t[0]
+    if k == "PAREN":
+        return expected(t[1])
     if k == "ID":
         return "(IDENTIFIER %s)" % t[1]
     if k == "INT":
